@@ -1,6 +1,7 @@
 (* C13 — proofs about Stats/Quality.v *)
 From Coq Require Import List ListDec Arith NArith ZArith QArith Bool Lia ZifyBool Permutation.
 From Outrank Require Import Stats.Quality.
+From Outrank Require Sketch.HLL Sketch.HLLProofs Sketch.Bounded Sketch.BoundedProofs.   (* read-only, used qualified *)
 Import ListNotations.
 Local Open Scope Z_scope.
 
@@ -338,6 +339,68 @@ Section CardFacts.
 End CardFacts.
 
 (* ====================================================================================== *)
+(* (i') bridge to C14's model of the real sketch (Sketch/HLL.v), both phases                  *)
+
+Definition abs_sketch (t : HLL.st) : sketch :=
+  match t with HLL.Warm s => Warm s | HLL.Cold _ => Cold end.
+
+Section HLLBridge.
+  Variable p : N.
+  Variable W : nat.
+  Variable width : N.
+  Variable h2 : N -> N.
+  Variable hash : val -> N.
+
+  (* the warm-phase model of this file is the abstraction of HLL.add that forgets the registers *)
+  Lemma abs_add t v : abs_sketch (HLL.add p W width h2 t v) = sk_add (Z.of_nat W) (abs_sketch t) v.
+  Proof.
+    destruct t as [s|r]; cbn [HLL.add abs_sketch sk_add]; [|reflexivity].
+    destruct (in_dec N.eq_dec v s) as [i|n].
+    - apply HLLProofs.mem_In in i. rewrite i, orb_true_r. reflexivity.
+    - assert (M : HLL.mem v s = false).
+      { destruct (HLL.mem v s) eqn:E; [|reflexivity]. apply HLLProofs.mem_In in E. contradiction. }
+      rewrite M, orb_false_r.
+      destruct (Nat.ltb_spec (length s) W), (Z.ltb_spec (Z.of_nat (length s)) (Z.of_nat W)); try lia; reflexivity.
+  Qed.
+
+  Lemma abs_fold l : forall t, abs_sketch (fold_left (HLL.add p W width h2) l t) =
+                               fold_left (sk_add (Z.of_nat W)) l (abs_sketch t).
+  Proof. induction l as [|v l IH]; intro t; cbn [fold_left]; [reflexivity|]. rewrite IH, abs_add. reflexivity. Qed.
+
+  Lemma abs_run l : abs_sketch (HLL.run p W width h2 l) = fold_left (sk_add (Z.of_nat W)) l (Warm []).
+  Proof. unfold HLL.run. apply abs_fold. Qed.
+
+  Definition len_view (x : HLL.lent) : option nat := match x with HLL.Exact n => Some n | HLL.Est _ => None end.
+
+  Lemma len_view_abs t : len_view (HLL.len t) = sk_len (abs_sketch t).
+  Proof. destruct t; reflexivity. Qed.
+
+  (* the cardinality of this file = the length of the real sketch model while that one is warm *)
+  Lemma card_bridge j (bs : list batch) :
+    card hash (Z.of_nat W) j bs = len_view (card_hll p W width h2 hash j bs).
+  Proof. unfold card, card_hll. rewrite len_view_abs, abs_run, sk_run_concat. reflexivity. Qed.
+
+  (* whatever every batch inserts (same set of digests as its truthy cells), in BOTH phases the length of the real
+     sketch is that of the sketch fed once with the whole column: C14's len_set *)
+  Lemma card_hll_any_order (inss : list (list N)) (cols : list (list val)) :
+    Forall2 (fun ins col => forall h, In h ins <-> In h (map hash (filter truthy col))) inss cols ->
+    HLL.len (HLL.run p W width h2 (concat inss)) = card_hll_spec p W width h2 hash (concat cols).
+  Proof. intro F. unfold card_hll_spec. apply HLLProofs.len_set. apply (sets_concat hash). exact F. Qed.
+
+  Lemma card_hll_is_spec j (bs : list batch) :
+    card_hll p W width h2 hash j bs = card_hll_spec p W width h2 hash (column j (concat bs)).
+  Proof.
+    unfold card_hll. rewrite column_concat.
+    rewrite <- (card_hll_any_order (map (fun b => batch_ins hash (column j b)) bs) (map (column j) bs)); [reflexivity|].
+    induction bs as [|b bs IH]; cbn [map]; constructor; [apply batch_ins_set|assumption].
+  Qed.
+
+  Lemma card_hll_split_indep j (s1 s2 : list batch) : concat s1 = concat s2 ->
+    card_hll p W width h2 hash j s1 = card_hll p W width h2 hash j s2.
+  Proof. intro E. rewrite !card_hll_is_spec, E. reflexivity. Qed.
+End HLLBridge.
+
+(* ====================================================================================== *)
 (* (ii) bounded counter and histogram                                                      *)
 
 Definition exact_run (col : list val) : al val := fold_left (incr val_eq_dec) col [].
@@ -417,6 +480,122 @@ Lemma counter_exact bound j (bs : list batch) v :
   get val_eq_dec (counter bound j bs) v = cnt val_eq_dec col v.
 Proof.
   intros col H. rewrite counter_is_concat. fold col. rewrite bc_exact by assumption. apply get_exact_run.
+Qed.
+
+(* ---- any column: the counter holds the exact counts of the prefix [eff_prefix] ------------------------------- *)
+
+Definition seen_ok (seen done : list val) : Prop := NoDup seen /\ forall x, In x seen <-> In x done.
+
+Lemma seen_len seen done : seen_ok seen done -> length seen = length (nodup val_eq_dec done).
+Proof.
+  intros [N E]. apply Permutation_length. apply NoDup_Permutation; [assumption|apply NoDup_nodup|].
+  intro x. rewrite nodup_In. apply E.
+Qed.
+
+Lemma seen_step seen done x : seen_ok seen done ->
+  seen_ok (if memb val_eq_dec x seen then seen else x :: seen) (done ++ [x]).
+Proof.
+  intros [N E]. destruct (memb val_eq_dec x seen) eqn:M.
+  - apply memb_true in M. split; [assumption|]. intro y. rewrite in_app_iff, <- E. cbn [In]. split; [tauto|].
+    intros [H|[H|[]]]; [assumption|subst; assumption].
+  - apply memb_false in M. split; [constructor; assumption|]. intro y. rewrite in_app_iff, <- E. cbn [In]. tauto.
+Qed.
+
+Lemma seen_nil : seen_ok [] [].
+Proof. split; [constructor|tauto]. Qed.
+
+Lemma bc_frozen bound col c : bound <= Z.of_nat (length c) -> fold_left (bc_add bound) col c = c.
+Proof.
+  intro H. induction col as [|x col IH]; [reflexivity|]. cbn [fold_left]. unfold bc_add at 2.
+  destruct (Z.ltb_spec (Z.of_nat (length c)) bound); [lia|assumption].
+Qed.
+
+Lemma exact_run_snoc done x : exact_run (done ++ [x]) = incr val_eq_dec (exact_run done) x.
+Proof. unfold exact_run. rewrite fold_left_app. reflexivity. Qed.
+
+Lemma bc_general bound col : forall done seen, seen_ok seen done ->
+  fold_left (bc_add bound) col (exact_run done) = exact_run (done ++ eff_prefix bound seen col).
+Proof.
+  induction col as [|x col IH]; intros done seen S; cbn [fold_left eff_prefix]; [rewrite app_nil_r; reflexivity|].
+  pose proof (seen_len _ _ S) as L. unfold bc_add at 2. rewrite length_exact_run, <- L.
+  destruct (Z.ltb_spec (Z.of_nat (length seen)) bound) as [B|B].
+  - rewrite <- exact_run_snoc. rewrite (IH _ _ (seen_step _ _ x S)). rewrite <- app_assoc. reflexivity.
+  - rewrite app_nil_r. apply bc_frozen. rewrite length_exact_run, <- L. assumption.
+Qed.
+
+(* the stored counter after any split, for ANY bound and column *)
+Lemma counter_general bound j (bs : list batch) :
+  counter bound j bs = exact_run (eff_prefix bound [] (column j (concat bs))).
+Proof. rewrite counter_is_concat. apply (bc_general bound _ [] [] seen_nil). Qed.
+
+Lemma hist_is_general edges bound j (bs : list batch) :
+  hist edges bound j bs = hist_general edges bound (column j (concat bs)).
+Proof. unfold hist, hist_general. rewrite counter_general. apply hist_exact. Qed.
+
+Lemma counter_get_general bound j (bs : list batch) v :
+  get val_eq_dec (counter bound j bs) v = cnt val_eq_dec (eff_prefix bound [] (column j (concat bs))) v.
+Proof. rewrite counter_general. apply get_exact_run. Qed.
+
+(* what that prefix is *)
+Lemma eff_prefix_is_prefix bound col : forall seen, exists rest, col = eff_prefix bound seen col ++ rest.
+Proof.
+  induction col as [|x col IH]; intro seen; cbn [eff_prefix]; [exists []; reflexivity|].
+  destruct (Z.of_nat (length seen) <? bound).
+  - destruct (IH (if memb val_eq_dec x seen then seen else x :: seen)) as [rest E]. exists rest. cbn [app]. congruence.
+  - exists (x :: col). reflexivity.
+Qed.
+
+Lemma eff_prefix_all bound col : forall done seen, seen_ok seen done ->
+  Z.of_nat (length (nodup val_eq_dec (done ++ col))) < bound -> eff_prefix bound seen col = col.
+Proof.
+  induction col as [|x col IH]; intros done seen S H; [reflexivity|]. cbn [eff_prefix].
+  pose proof (seen_len _ _ S) as L.
+  assert (M : (length (nodup val_eq_dec done) <= length (nodup val_eq_dec (done ++ x :: col)))%nat).
+  { apply NoDup_incl_length; [apply NoDup_nodup|]. intro y. rewrite !nodup_In, in_app_iff. tauto. }
+  destruct (Z.ltb_spec (Z.of_nat (length seen)) bound); [|lia].
+  f_equal. apply (IH (done ++ [x])); [apply seen_step; assumption|]. rewrite <- app_assoc. exact H.
+Qed.
+
+(* every counted cell arrived while fewer than [bound] distinct values were stored ... *)
+Lemma eff_prefix_counted bound col : forall done seen q x t, seen_ok seen done ->
+  eff_prefix bound seen col = q ++ x :: t -> Z.of_nat (length (nodup val_eq_dec (done ++ q))) < bound.
+Proof.
+  induction col as [|x0 col IH]; intros done seen q x t S E; cbn [eff_prefix] in E; [destruct q; discriminate|].
+  pose proof (seen_len _ _ S) as L.
+  destruct (Z.ltb_spec (Z.of_nat (length seen)) bound) as [B|B]; [|destruct q; discriminate].
+  destruct q as [|y q]; cbn [app] in E.
+  - rewrite app_nil_r. lia.
+  - inversion E; subst. replace (done ++ y :: q) with ((done ++ [y]) ++ q) by (rewrite <- app_assoc; reflexivity).
+    eapply IH; [apply seen_step; eassumption|eassumption].
+Qed.
+
+(* ... and the first cell that is not counted arrives when [bound] distinct values are stored *)
+Lemma eff_prefix_stops bound col : forall done seen rest, seen_ok seen done ->
+  col = eff_prefix bound seen col ++ rest -> rest <> [] ->
+  bound <= Z.of_nat (length (nodup val_eq_dec (done ++ eff_prefix bound seen col))).
+Proof.
+  induction col as [|x0 col IH]; intros done seen rest S E NE; cbn [eff_prefix] in *.
+  - destruct rest; [congruence|discriminate].
+  - pose proof (seen_len _ _ S) as L.
+    destruct (Z.ltb_spec (Z.of_nat (length seen)) bound) as [B|B].
+    + cbn [app] in E. injection E as E'.
+      pose proof (IH (done ++ [x0]) _ rest (seen_step _ _ x0 S) E' NE) as H.
+      rewrite <- app_assoc in H. cbn [app] in H. exact H.
+    + rewrite app_nil_r. lia.
+Qed.
+
+Lemma eff_prefix_spec bound col :
+  let pre := eff_prefix bound [] col in
+  (exists rest, col = pre ++ rest /\
+                (rest <> [] -> bound <= Z.of_nat (length (nodup val_eq_dec pre)))) /\
+  (forall q x t, pre = q ++ x :: t -> Z.of_nat (length (nodup val_eq_dec q)) < bound) /\
+  (Z.of_nat (length (nodup val_eq_dec col)) < bound -> pre = col).
+Proof.
+  cbv zeta. split; [|split].
+  - destruct (eff_prefix_is_prefix bound col []) as [rest E]. exists rest. split; [assumption|].
+    intro NE. apply (eff_prefix_stops bound col [] [] rest seen_nil E NE).
+  - intros q x t E. apply (eff_prefix_counted bound col [] [] q x t seen_nil E).
+  - intro H. apply (eff_prefix_all bound col [] [] seen_nil). exact H.
 Qed.
 
 (* ====================================================================================== *)
@@ -899,15 +1078,6 @@ Lemma parsed_card (hash : val -> N) cap j (s : list (list rrow)) : 0 <= cap ->
   card hash cap j (frames s) = card_spec hash cap (column j (fill (concat s))).
 Proof. intro Hc. rewrite card_is_spec by assumption. rewrite frames_fill. reflexivity. Qed.
 
-Lemma fill_no_none (rows : list rrow) j v : In v (column j (fill rows)) -> v = PyNone \/ exists s, v = V s.
-Proof.
-  unfold column, fill. rewrite map_map. intro I. apply in_map_iff in I. destruct I as [r [E _]]. subst v.
-  destruct (Nat.lt_ge_cases j (length (map fill_cell r))) as [L|L].
-  - right. rewrite map_length in L. rewrite (nth_indep _ PyNone (fill_cell None)) by (rewrite map_length; assumption).
-    rewrite map_nth. destruct (nth j r None); eexists; reflexivity.
-  - left. apply nth_overflow. assumption.
-Qed.
-
 (* [pre-fix pipeline / direct calls] None cells break it: pandas stores nan (truthy, a key of its own) when the batch's column also holds
    strings and None (falsy, another key) when it does not.  Rows [None; a; None] in one batch or cut 1 | 2 *)
 Lemma none_cells_refuted :
@@ -919,7 +1089,7 @@ Lemma none_cells_refuted :
     rare 1 1 (frames_raw s3) = [((0%nat, PyNone), 1); ((0%nat, V [97%N]), 1); ((0%nat, NaN), 1)].
 Proof.
   exists (fun v => match v with V [x] => x | NaN => 1%N | _ => 0%N end),
-         [[[None]; [Some [97%N]]; [None]]], [[[None]]; [[Some [97%N]]]; [[None]]], [[[None]]; [[Some [97%N]]; [None]]].
+         [[[None]; [Some (V [97%N])]; [None]]], [[[None]]; [[Some (V [97%N])]]; [[None]]], [[[None]]; [[Some (V [97%N])]; [None]]].
   vm_compute. repeat split; reflexivity.
 Qed.
 
@@ -986,11 +1156,11 @@ Module Examples.
   (* coverage: a None cell (nan or None in the frame) is not a missing symbol and the denominator is the
      number of rows: ['u', None, '{}', 'v'] with symbols '', '{}' is 75 *)
   Example ex_cov_none :
-    cov_batch [[]; [123%N; 125%N]] (column 0 (frame_raw [[Some [117%N]]; [None]; [Some [123%N; 125%N]]; [Some [118%N]]])) == 75 /\
+    cov_batch [[]; [123%N; 125%N]] (column 0 (frame_raw [[Some (V [117%N])]; [None]; [Some (V [123%N; 125%N])]; [Some (V [118%N])]])) == 75 /\
     cov_batch [[]; [123%N; 125%N]] (column 0 (frame_raw [[None]; [None]])) == 100.
   Proof. vm_compute. split; reflexivity. Qed.
 
   (* the frame of a batch: None becomes nan next to strings, stays None in an all-None column *)
-  Example ex_frame : frame_raw [[Some [97%N]; None]; [None; None]] = [[a; PyNone]; [NaN; PyNone]].
+  Example ex_frame : frame_raw [[Some (V [97%N]); None]; [None; None]] = [[a; PyNone]; [NaN; PyNone]].
   Proof. reflexivity. Qed.
 End Examples.
